@@ -78,7 +78,8 @@ class Ctx:
                                "anchored item %s not found in the crate (renamed or removed): rule cannot be evaluated, failing closed" % key, "")
             self._bodies[key] = None
             return None
-        if getattr(self, "splice", False) and self.inline_set:
+        sp_ = getattr(self, "splice", False)
+        if (sp_ is True or (isinstance(sp_, (tuple, list, set, frozenset)) and key in sp_)) and self.inline_set:
             f = mir.splice_loop_helpers(self.fx, f, self.inline_set)
         b = mir.Body(f)
         self._bodies[key] = b
@@ -197,7 +198,7 @@ def run_property(prop, tier, fx, fx_nd):
     ctx = Ctx(prop, tier, fx, fx_nd)
     ctx.inline_set = inline_set(mod, fx)
     ctx.desugar = bool(getattr(mod, "DESUGAR", bool(os.environ.get("VERIF_DESUGAR_ALL"))))
-    ctx.splice = bool(getattr(mod, "SPLICE_LOOP_HELPERS", False))
+    ctx.splice = getattr(mod, "SPLICE_LOOP_HELPERS", False)       # True, or the functions into which looping helpers are spliced
     try:
         mod.run(ctx)
     except Exception:
@@ -211,7 +212,7 @@ def run_property(prop, tier, fx, fx_nd):
         ctx2 = Ctx(prop, tier, fx_nd, None, config="nodefault")
         ctx2.inline_set = inline_set(mod, fx_nd)
         ctx2.desugar = bool(getattr(mod, "DESUGAR", bool(os.environ.get("VERIF_DESUGAR_ALL"))))
-        ctx2.splice = bool(getattr(mod, "SPLICE_LOOP_HELPERS", False))
+        ctx2.splice = getattr(mod, "SPLICE_LOOP_HELPERS", False)
         try:
             mod.run(ctx2)
         except Exception:
